@@ -343,17 +343,35 @@ End Standard.
 
 (* the rendering used by the correspondence runs: [path ':' | path '-'] line [terminator if missing]
    (no line numbers, no heading, no colour, no column, no replacement) *)
+(* the lines of l, terminators kept (cur = current line, reversed) *)
+Fixpoint split_keep (lt : byte) (l : bytes) (cur : bytes) : list bytes :=
+  match l with
+  | [] => match cur with [] => [] | _ => [rev cur] end
+  | x :: xs => if N.eqb x lt then rev (x :: cur) :: split_keep lt xs [] else split_keep lt xs (x :: cur)
+  end.
+
 Definition simple_render (path : option bytes) (pterm : option byte) (lt : byte) (ev : event) : bytes :=
   (* PreludeWriter::write_path: the path is followed by the path terminator (-0/--null) if one is configured,
-     else by the field separator (':' for a match, '-' for a context line) *)
+     else by the field separator (':' for a match, '-' for a context line); a multi-line match is written line
+     by line, each with its prelude *)
   let pre (sep : byte) := match path with
                           | Some p => p ++ [match pterm with Some t => t | None => sep end]
                           | None => [] end in
   let body (l : bytes) := if is_suffix_of [lt] l then l else l ++ [lt] in
+  let each (sep : byte) (l : bytes) := concat (map (fun ln => pre sep ++ body ln) (split_keep lt l [])) in
   match ev with
-  | EMatched _ l => pre 58%N ++ body l
-  | EContext _ _ l => pre 45%N ++ body l
+  | EMatched _ l => each 58%N l
+  | EContext _ _ l => each 45%N l
   | _ => []
+  end.
+
+(* the plan of MultiLine for the pattern `\n`: every terminated line ends in a match and adjacent matching lines
+   are merged, so there is one sink_matched call covering everything up to the last terminator, made during the
+   final flush when Core::pos() is already the end of the slice *)
+Definition ml_newline_plan (lt : byte) (buf : bytes) : list call :=
+  match memrchr lt buf with
+  | Some i => [mk_call true KOther 0 (S i) false (length buf)]
+  | None => []
   end.
 
 (* ---- the summary printer as a sink ---- *)
